@@ -364,8 +364,11 @@ def task_equilibria(nr, nkeys, hi, presence=None):
 REPLAY_SUBSET = '''
 from chempy import Reaction, ReactionSystem
 flags = %(flags)r
+twins = %(twins)r
 rxns = [Reaction({"A": 1}, {"B": 1}, 1), Reaction({"B": 1}, {"C": 1}, 2), Reaction({"C": 1, "D": 1}, {"A": 2}, 3)][:len(flags)]
-rsys = ReactionSystem(rxns, "A B C D E")
+if twins: rxns[2] = Reaction({"A": 1}, {"B": 1}, 1, name="twin")   # a distinct object that compares equal to the first reaction
+CK = dict(checks=()) if twins else {}
+rsys = ReactionSystem(rxns, "A B C D E", **CK)
 yes, no = rsys.subset(lambda r: flags[[i for i, x in enumerate(rxns) if x is r][0]])
 bad = []
 if [r for r in yes.rxns] != [r for r, f in zip(rxns, flags) if f] or [r for r in no.rxns] != [r for r, f in zip(rxns, flags) if not f]:
@@ -378,33 +381,40 @@ if sorted(map(id, tot.rxns)) != sorted(map(id, rxns)): bad.append("sum of the tw
 other = ReactionSystem([Reaction({"E": 1}, {"F": 1}, 4)], "E F")
 s2 = rsys + other
 if [id(r) for r in s2.rxns] != [id(r) for r in rxns] + [id(other.rxns[0])] or list(s2.substances) != ["A", "B", "C", "D", "E", "F"]: bad.append("__add__")
-r3 = ReactionSystem(rxns, "A B C D E"); r3 += other
+r3 = ReactionSystem(rxns, "A B C D E", **CK); r3 += other
 if [id(r) for r in r3.rxns] != [id(r) for r in rxns] + [id(other.rxns[0])] or list(r3.substances) != ["A", "B", "C", "D", "E", "F"]: bad.append("__iadd__")
-if not (rsys == ReactionSystem(rxns, "A B C D E")) or (rsys == s2): bad.append("__eq__")
+if not (rsys == ReactionSystem(rxns, "A B C D E", **CK)) or (rsys == s2): bad.append("__eq__")
 for b in bad: print("MISMATCH", b)
 sys.exit(1 if bad else 0)
 '''
 
 
-def task_subset(nr):
+def task_subset(nr, twins=False):
     from chempy import Reaction, ReactionSystem
 
     flags = [z3.Bool("pred%d" % i) for i in range(nr)]
 
     def fn():
         rxns = [Reaction({"A": 1}, {"B": 1}, 1), Reaction({"B": 1}, {"C": 1}, 2), Reaction({"C": 1, "D": 1}, {"A": 2}, 3)][:nr]
-        rsys = ReactionSystem(rxns, "A B C D E")
+        ck = {}
+        if twins:
+            # two DISTINCT reaction objects that compare equal (same stoichiometry and constant, other name) - e.g. after adding two models
+            rxns[2] = Reaction({"A": 1}, {"B": 1}, 1, name="twin")
+            ck = dict(checks=())
+        rsys = ReactionSystem(rxns, "A B C D E", **ck)
         yes, no = rsys.subset(lambda r: SymBool(flags[[i for i, x in enumerate(rxns) if x is r][0]]))
         tot = yes + no
         other = ReactionSystem([Reaction({"E": 1}, {"F": 1}, 4)], "E F")
         s2 = rsys + other
-        r3 = ReactionSystem(rxns, "A B C D E")
+        r3 = ReactionSystem(rxns, "A B C D E", **ck)
         r3 += other
         ids = lambda rs: [[i for i, x in enumerate(rxns + other.rxns) if x is r][0] for r in rs.rxns]  # noqa
         return (ids(yes), list(yes.substances), ids(no), list(no.substances), sorted(ids(tot)), ids(s2), list(s2.substances), ids(r3),
-                list(r3.substances), rsys == ReactionSystem(rxns, "A B C D E"), rsys == s2)
+                list(r3.substances), rsys == ReactionSystem(rxns, "A B C D E", **ck), rsys == s2)
 
     rk = [{"A", "B"}, {"B", "C"}, {"A", "C", "D"}][:nr]
+    if twins:
+        rk[2] = {"A", "B"}
 
     def goal(p):
         if p.kind == "exc":
@@ -434,7 +444,7 @@ def task_subset(nr):
     for p, m, g in o.failed[:1]:
         fl = [bool(model_value(m, f)) for f in flags]
         res["violations"].append(dict(key="subset:%s" % p.kind, desc="predicate values %s -> %r" % (fl, p.value),
-                                      replay_src=REPLAY_SUBSET % dict(flags=fl)))
+                                      replay_src=REPLAY_SUBSET % dict(flags=fl, twins=twins)))
     res["twin"] = "violated" if o.paths == 2 ** nr else "passed"
     res["status"] = "violation" if res["violations"] else ("inconclusive" if res["inconclusive"] else "discharged")
     return res
@@ -754,6 +764,7 @@ def tasks(tier, seed):
         ts.append(dict(id="C15.equilibria.presence.%s" % "-".join(pres), fn="task_equilibria",
                        kwargs=dict(nr=len(pres), nkeys=3, hi=1 if len(pres) == 3 else 2, presence=pres), timeout=900))
     ts.append(dict(id="C15.subset.3", fn="task_subset", kwargs=dict(nr=3), timeout=300))
+    ts.append(dict(id="C15.subset.3.twins", fn="task_subset", kwargs=dict(nr=3, twins=True), timeout=300))
     systems = gen.kin_systems(tier, seed)
     n = 4 if tier == "quick" else 12
     for i in range(n):
